@@ -9,7 +9,8 @@ vars == <<st, last, nops>>
 Ops == {Op("write", 0, p) : p \in Pieces}
   \cup {Op("read", n, <<>>) : n \in {-1, 0, 1, 2}}
   \cup {Op("seek", n, <<>>) : n \in 0..MaxLen}
-  \cup {Op(n, 0, <<>>) : n \in {"readline", "next", "readlines", "iterate", "seek_end", "tell", "getvalue", "len"}}
+  \cup {Op("readline", n, <<>>) : n \in {-1, 0, 1, 2}}       \* no limit | limits
+  \cup {Op(n, 0, <<>>) : n \in {"next", "readlines", "iterate", "seek_end", "tell", "getvalue", "len"}}
 Init == st = [data |-> <<>>, pos |-> 0] /\ nops = 0 /\ last = [op |-> Op("init", 0, <<>>), o |-> Out(st, Ok(<<>>))]
 Next == /\ nops < MaxOps
         /\ \E o \in Ops : \E out \in Outcomes(st, o) :
